@@ -94,7 +94,7 @@ func IsAEAD(name string) bool {
 func KnownCipher(name string) bool { _, ok := ciphers[name]; return ok }
 func KnownMAC(name string) bool    { _, ok := macs[name]; return ok }
 
-const maxPacketLen = 256 * 1024 // generous upper bound for a packet_length field
+const maxPacketLen = 256*1024 + 512 // upper bound for a packet_length field: the largest payload the properties name (256 KiB) plus padding
 
 type dirState struct {
 	buf         []byte
@@ -781,4 +781,28 @@ func (m *Monitor) recomputeHash(r KexResult) []byte {
 	h.Write(fF)
 	h.Write(r.K)
 	return h.Sum(nil)
+}
+
+// ---- direct keying (H-wire: no key exchange on the wire) ----
+
+// SkipVersion tells the monitor that direction dir carries no version line.
+func (m *Monitor) SkipVersion(dir int) { m.d[dir].versionDone = true }
+
+// SetSeq sets the sequence number the monitor expects next in a direction.
+func (m *Monitor) SetSeq(dir int, seq uint32) { m.d[dir].seq = seq }
+
+// SetKeys keys direction dir directly, as if a NEWKEYS had just been seen
+// after a key exchange with result r.
+func (m *Monitor) SetKeys(dir int, cipherName, macName string, r KexResult, sessionID []byte, strict bool) {
+	m.neg = negotiated{have: true}
+	m.neg.cipher[dir], m.neg.mac[dir] = cipherName, macName
+	m.sessionID = sessionID
+	m.Strict = strict
+	m.d[dir].results = []KexResult{r}
+	seq := m.d[dir].seq
+	m.swFlag[1-dir] = true // suppress the exchange hash recomputation
+	m.newKeys(dir)
+	if !strict {
+		m.d[dir].seq = seq
+	}
 }
